@@ -371,6 +371,17 @@ class Interp:
         self.kw_guards: List[Tuple[str, str]] = []  # (variable, 'exact'|'lower')
         self.post_guard_transform: List[str] = []
         self.aliases: Dict[str, str] = {}
+        # module-level `NAME = re.compile(<literal>)` constants (pre-compiled patterns used as `NAME.sub(repl, s)`)
+        root = fn_node
+        while getattr(root, "_parent", None) is not None:
+            root = root._parent  # type: ignore[attr-defined]
+        self.compiled: Dict[str, str] = {}
+        for st in getattr(root, "body", []) if isinstance(root, ast.Module) else []:
+            if isinstance(st, (ast.Assign, ast.AnnAssign)) and st.value is not None and isinstance(st.value, ast.Call) and dotted(st.value.func) == "re.compile" \
+                    and len(st.value.args) == 1 and _const(st.value.args[0]) is not None:
+                tg = st.targets[0] if isinstance(st, ast.Assign) else st.target
+                if isinstance(tg, ast.Name):
+                    self.compiled[tg.id] = _const(st.value.args[0]) or ""
 
     def run(self) -> None:
         env: Dict[str, AVal] = {self.param: AStr.any()}
@@ -606,6 +617,17 @@ class Interp:
                 return t_split(pat, s)
             if name == "str" and len(e.args) == 1:
                 return self.ev(e.args[0], env)
+            if isinstance(e.func, ast.Attribute) and isinstance(e.func.value, ast.Name) and e.func.value.id in self.compiled and e.func.value.id not in env:
+                cpat = self.compiled[e.func.value.id]
+                if e.func.attr == "sub" and len(e.args) == 2 and _const(e.args[0]) is not None:
+                    sv = self.ev(e.args[1], env)
+                    if isinstance(sv, AStr):
+                        return t_sub(cpat, _const(e.args[0]) or "", sv)
+                if e.func.attr in ("findall", "split") and len(e.args) == 1:
+                    sv = self.ev(e.args[0], env)
+                    if isinstance(sv, AStr):
+                        return t_findall(cpat, sv) if e.func.attr == "findall" else t_split(cpat, sv)
+                raise Unsupported(f"compiled pattern use {norm(e)[:60]}")
             if isinstance(e.func, ast.Attribute):
                 m = e.func.attr
                 if m == "join" and len(e.args) == 1:
